@@ -65,7 +65,17 @@ type Case struct {
 	Rank    []int    `json:"rank"`
 	Probe   string   `json:"probe"`
 	ExpectK int      `json:"expectk"`
-	NFiles  int      `json:"nfiles"`
+	// fuseconc (FuseHandle.tla): reads A and B on one handle, piece M not there yet
+	A struct {
+		Off int `json:"off"`
+		N   int `json:"n"`
+	} `json:"a"`
+	B struct {
+		Off int `json:"off"`
+		N   int `json:"n"`
+	} `json:"b"`
+	M      int `json:"m"`
+	NFiles int `json:"nfiles"`
 }
 
 type Viol struct {
@@ -522,6 +532,108 @@ func fuseLookup(c *Case, l *live, files []mktor.File, offsets []int64, viol func
 	}
 }
 
+// runFuseConc: two reads in flight on one FUSE handle (FuseHandle.tla).  Read
+// A covers piece M, which has not arrived: it blocks there.  Read B is issued
+// meanwhile on the same handle.  Then M arrives.  Each read must return
+// exactly its own range.
+func runFuseConc(c *Case, out *Out) {
+	setup()
+	viol := func(key, what string) {
+		out.Violations = append(out.Violations, Viol{"C02", key, fmt.Sprintf("%s (read A pieces %d+%d, read B pieces %d+%d, piece %d arrives late)", what, c.A.Off, c.A.N, c.B.Off, c.B.N, c.M)})
+	}
+	const ps = 2 * CS
+	// reads are not piece aligned: they start 5000 bytes into their first piece and are n pieces long minus a bit
+	spec := mktor.Spec{Name: fmt.Sprintf("fc %d", c.ID), PieceLen: ps, Length: 4*ps + 9000, Seed: uint64(c.ID) + 77}
+	l, err := start(spec, false)
+	if err != nil {
+		out.Note = "torrent: " + err.Error()
+		return
+	}
+	defer l.stop()
+	give := func(i int) {
+		lo := int64(i) * ps
+		hi := min(lo+ps, int64(len(l.truth)))
+		for b := lo; b < hi; b += CS {
+			e := min(b+CS, hi)
+			l.t.Pieces.AddData(uint32(i), uint32(b-lo), l.truth[b:e], 1)
+		}
+		l.t.Pieces.Finalise(uint32(i), l.t.PieceHashes[i])
+		l.t.Have(uint32(i), true)
+	}
+	for i := 0; i < l.t.Pieces.Num(); i++ {
+		if i != c.M {
+			give(i)
+		}
+	}
+	ctx := context.Background()
+	root := fuse.VerifRoot()
+	node, err := root.(fs.NodeStringLookuper).Lookup(ctx, l.t.Name)
+	if err != nil {
+		out.Note = "lookup: " + err.Error()
+		return
+	}
+	hd, err := node.(fs.NodeOpener).Open(ctx, &bfuse.OpenRequest{Flags: bfuse.OpenReadOnly}, &bfuse.OpenResponse{})
+	if err != nil {
+		out.Note = "open: " + err.Error()
+		return
+	}
+	defer func() {
+		if rl, ok := hd.(fs.HandleReleaser); ok {
+			rl.Release(ctx, &bfuse.ReleaseRequest{})
+		}
+	}()
+	type res struct {
+		data []byte
+		err  error
+	}
+	read := func(off, n int) (int64, int, chan res) {
+		o := int64(off)*ps + 5000
+		size := n*ps - 6000
+		// A must reach into piece M: it starts at off*ps+5000 and is n*ps-6000 long, i.e. ends in piece off+n-1 (n = 2) or stays in off (n = 1)
+		ch := make(chan res, 1)
+		go func() {
+			resp := &bfuse.ReadResponse{Data: make([]byte, 0, size)}
+			err := hd.(fs.HandleReader).Read(ctx, &bfuse.ReadRequest{Offset: o, Size: size}, resp)
+			ch <- res{resp.Data, err}
+		}()
+		return o, size, ch
+	}
+	oa, sa, cha := read(c.A.Off, c.A.N)
+	time.Sleep(60 * time.Millisecond) // A is now blocked on piece M (or queued for it)
+	ob, sb, chb := read(c.B.Off, c.B.N)
+	time.Sleep(60 * time.Millisecond)
+	select {
+	case r := <-cha:
+		// it cannot have been served: piece M is not there
+		viol("fuse-read-unavailable", fmt.Sprintf("read A returned %d bytes (err %v) although it covers a piece that has not arrived", len(r.data), r.err))
+		return
+	default:
+	}
+	give(c.M)
+	check := func(name string, o int64, size int, ch chan res) {
+		select {
+		case r := <-ch:
+			want := l.truth[o:min(o+int64(size), int64(len(l.truth)))]
+			if r.err != nil {
+				viol("fuse-read-error", fmt.Sprintf("read %s failed: %v", name, r.err))
+			} else if !bytes.Equal(r.data, want) {
+				where := -1
+				for i := range r.data {
+					if i >= len(want) || r.data[i] != want[i] {
+						where = i
+						break
+					}
+				}
+				viol("fuse-read-wrong-bytes", fmt.Sprintf("read %s (offset %d, %d bytes) returned %d bytes that differ from the file from byte %d on: two reads on one handle disturb each other", name, o, size, len(r.data), where))
+			}
+		case <-time.After(10 * time.Second):
+			viol("fuse-read-hang", "read "+name+" did not return within 10 s of the arrival of the missing piece")
+		}
+	}
+	check("A", oa, sa, cha)
+	check("B", ob, sb, chb)
+}
+
 // runByName: several torrents with the same name; the FUSE root must resolve
 // the name to the same torrent every time, the one Namespace!ByName names.
 func runByName(c *Case, out *Out) {
@@ -859,6 +971,8 @@ func Handle(in []byte) any {
 		runWebUI(&c, out)
 	case "byname":
 		runByName(&c, out)
+	case "fuseconc":
+		runFuseConc(&c, out)
 	default:
 		out.Note = "unknown kind"
 	}
